@@ -701,6 +701,41 @@ example : dominantBpm [⟨1000, 200⟩, ⟨0, 100⟩, ⟨1500, 100⟩, ⟨2000, 
   · decide +kernel
   · rw [← isDominantB_iff]; decide +kernel
 
+/-! ### the order of the tempo rows never matters -/
+
+theorem totalTime_perm {b b' : List Tp} (h : b.Perm b') (L v : Rat) : totalTime b L v = totalTime b' L v := by
+  unfold totalTime
+  have hts : (b.map (·.time)).Perm (b'.map (·.time)) := h.map _
+  have hf : (fun p : Tp => span (b.map (·.time)) L p.time) = fun p => span (b'.map (·.time)) L p.time := by
+    funext p; exact span_perm hts L p.time
+  rw [hf]
+  exact sumRat_perm ((h.filter _).map _)
+
+theorem isDominant_perm {b b' : List Tp} (h : b.Perm b') (L v : Rat) : IsDominant b L v ↔ IsDominant b' L v := by
+  unfold IsDominant
+  simp only [totalTime_perm h]
+  constructor
+  · rintro ⟨⟨p, hp, e⟩, hm⟩
+    exact ⟨⟨p, h.mem_iff.mp hp, e⟩, fun q hq => hm q (h.mem_iff.mpr hq)⟩
+  · rintro ⟨⟨p, hp, e⟩, hm⟩
+    exact ⟨⟨p, h.mem_iff.mpr hp, e⟩, fun q hq => hm q (h.mem_iff.mp hq)⟩
+
+/-- **dominant_perm_invariant.** `dominant_bpm` depends on the tempo points as a SET: any two row orders of the
+same tempo points give the same result (ties included: the least maximiser either way). -/
+theorem dominant_perm_invariant {b b' : List Tp} (h : b.Perm b') (L : Rat) (hd : (b.map (·.time)).Nodup)
+    (hL : ∀ p ∈ b, p.time ≤ L) : dominantBpm b L = dominantBpm b' L := by
+  have hd' : (b'.map (·.time)).Nodup := (h.map (·.time)).nodup_iff.mp hd
+  have hL' : ∀ p ∈ b', p.time ≤ L := fun p hp => hL p (h.mem_iff.mpr hp)
+  by_cases hne : b = []
+  · subst hne
+    rw [List.nil_perm.mp h]
+  · have hne' : b' ≠ [] := fun e => hne (by subst e; exact List.perm_nil.mp h)
+    obtain ⟨v, hv, hdom⟩ := dominant_is_max b L hne hd hL
+    obtain ⟨v', hv', hdom'⟩ := dominant_is_max b' L hne' hd' hL'
+    have h1 : v ≤ v' := dominant_least b L hd hL v hv v' ((isDominant_perm h L v').mpr hdom')
+    have h2 : v' ≤ v := dominant_least b' L hd' hL' v' hv' v ((isDominant_perm h L v).mp hdom)
+    rw [hv, hv', le_antisymm h1 h2]
+
 /-! ### chart level: first / last object are the bounds of `m.stack().offset` - the hypotheses about `last` and
 about SVs before the first object are theorems, not assumptions -/
 
